@@ -1,4 +1,4 @@
 Require Extraction.
 Require Import ExtrOcamlBasic.
 From LH Require Import Base.Bytes Model.Diag Model.Events Spec.FreshStart Proofs.EventsToy.
-Extraction "c08model.ml" extract_anchor no_fix all_fix round1 round2 round3 deployed toy_in_dir toy_all_in toy_obs toy_conformant toy_classes.
+Extraction "c08model.ml" extract_anchor no_fix all_fix round1 round2 round3 round4 deployed toy_in_dir toy_all_in toy_obs toy_conformant toy_classes.
